@@ -404,6 +404,40 @@ def e_update_wrapper(I, st, ca):
     return out
 
 
+Round = z3.Function('Round', Val, Val, Val)          # Python's round(x, ndigits) on objects
+
+
+def b_round(I, st, ca):
+    a = _plain(ca, 'round', 1, 2)
+    nd = I.to_val(a[1]) if len(a) == 2 else NoneC
+    return [(st, Opaque(Round(I.to_val(a[0]), nd)))]
+
+
+def b_enumerate(I, st, ca):
+    (o,) = _plain(ca, 'enumerate', 1)
+    items = I.static_seq(st, o)
+    if items is None:
+        raise Unsupported('enumerate over a sequence of unknown length')
+    return [(st, TupleV([TupleV([IntV(i), x]) for i, x in enumerate(items)]))]
+
+
+def b_sorted(I, st, ca):
+    (o,) = _plain(ca, 'sorted', 1)
+    items = I.static_seq(st, o)
+    if items is None:
+        raise Unsupported('sorted over a sequence of unknown length')
+    keys = []
+    for it in items:
+        k = it.items[0] if isinstance(it, TupleV) and it.items else it
+        if not isinstance(k, StrV):
+            raise Unsupported('sorted: elements are not (constant string, ...) pairs')
+        keys.append(k.s)
+    if len(set(keys)) != len(keys):
+        raise Unsupported('sorted: equal first components')
+    s = st.fork()
+    return [(s, s.alloc(ListObj(tuple(x for _, x in sorted(zip(keys, items), key=lambda kv: kv[0])))))]
+
+
 def make_builtins():
     b = {}
     obj = ClassV('object', model=m_object)
@@ -439,6 +473,10 @@ def make_builtins():
     b['tuple'] = FuncV('tuple', b_tuple)
     b['property'] = FuncV('property', b_property)
     b['str'] = FuncV('str', b_str)
+    b['round'] = FuncV('round', b_round)
+    b['enumerate'] = FuncV('enumerate', b_enumerate)
+    b['sorted'] = FuncV('sorted', b_sorted)
+    b['float'] = b['float!cls']
     b['True'] = BoolV(True)
     b['False'] = BoolV(False)
     b['None'] = NONE
